@@ -312,6 +312,7 @@ type CtorSum struct {
 	Notes  []Note
 	FS     *FuncSummary
 	Stores []*Store
+	Guard  string // path condition of the return whose state was taken
 }
 
 // Constructors returns the module functions (not methods) that return k or *k.
@@ -354,8 +355,33 @@ func (w *World) CtorSummary(fi *FuncInfo) *CtorSum {
 	}
 	cs.Root = ov.Path
 	cs.State = r.St
+	cs.Guard = r.Guard
 	canonFields(r.St, ov.Path, "$", cs.Fields, 0)
+	// the state is that of one return: a choice on a condition the path to it has already decided
+	// (an earlier successful return took the other arm) is no choice there
+	if r.Guard != "" {
+		for k, v := range cs.Fields {
+			if iv, ok := v.(IntV); ok && iv.T != nil {
+				cs.Fields[k] = IntV{simplifyUnderGuard(iv.T, r.Guard)}
+			}
+		}
+	}
 	return cs
+}
+
+// simplifyUnderGuard resolves the ite atoms of t whose condition is one of the guard's conjuncts.
+func simplifyUnderGuard(t *Term, guard string) *Term {
+	for _, g := range conjunctsOf(guard) {
+		if strings.HasPrefix(g, "loop") {
+			continue
+		}
+		if strings.HasPrefix(g, "!(") && strings.HasSuffix(g, ")") {
+			t = t.underCond(g[2:len(g)-1], false)
+		} else {
+			t = t.underCond(g, true)
+		}
+	}
+	return t
 }
 
 // canonFields walks the strong updates below object path obj and records them
